@@ -48,8 +48,19 @@ def flatten(o):
         if "ev" in st:
             ev.append({"t": "ev", "h": h, "ev": st["ev"], "node": st.get("node", -1)})
             continue
+        if st["op"] == "exec2":
+            # two executions at once, one per node: judged as two executions, each with the frames its node saw
+            for nd in (0, 1):
+                ev.append({"t": "op", "h": h, "op": "exec", "pair": nd + 1, "hd": "p", "node": nd, "pk": st["pk"] + nd})
+                for f in s["frames"]:
+                    if "midev" not in f and f["node"] == nd:
+                        ev.append(frame(f))
+                r = (s["result"].get("pair") or [{}, {}])[nd]
+                ev.append({"t": "result", "h": h, "ok": r.get("ok", 0), "kind": r.get("kind", ""), "cols": r.get("cols", []),
+                           "rows": [[cell(c) for c in row] for row in r.get("rows", [])]})
+            continue
         cach = st["op"].startswith("c")
-        ev.append({"t": "op", "h": h, "op": st["op"][1:] if cach else st["op"], "hd": "c" if cach else "p", "node": st.get("node", -1), "pk": st.get("pk", 0)})
+        ev.append({"t": "op", "h": h, "op": st["op"][1:] if cach else st["op"], "pair": 0, "hd": "c" if cach else "p", "node": st.get("node", -1), "pk": st.get("pk", 0)})
         for f in s["frames"]:
             if "midev" in f:        # a server event between two pages
                 ev.append({"t": "ev", "h": h, "ev": f["midev"]["ev"], "node": f["midev"].get("node", -1)})
